@@ -400,57 +400,101 @@ def search_level(fn, z):
     raise dtable.Undecidable("%s: cannot tell whether %s searches a leaf or an inner node" % (fn.nloc(z), dtable.describe(z)))
 
 
+def descent_searches(tree, fn):
+    """([(function, search call)] of fn itself, [(call site in fn, helper, [search calls of the helper])]): a lookup may leave
+    (a part of) its descent to a member function of the same tree called on this; one level of such helpers is followed"""
+    is_search = lambda z: "callee" in z and z["callee"]["name"] in ("find_lower", "find_upper")
+    own = [(fn, z) for z in walk(fn.body) if is_search(z)]
+    helpers = []
+    for y in walk(fn.body):
+        if "callee" not in y or not y.get("member_call") or is_search(y) or not kids(y) or kids(y)[0] is None or \
+                strip_casts(kids(y)[0])["k"] != "This":
+            continue
+        h = tree.by_did.get(y["callee"].get("did"))
+        if h is None or h.body is None or h.record != B.BT or h.did == fn.did:
+            continue
+        hc = [z for z in walk(h.body) if is_search(z)]
+        if hc:
+            helpers.append((y, h, hc))
+    return own, helpers
+
+
+def searched_node_is_result_of(fn, own, y):
+    """a leaf-level search of fn works on the node the call y returned (through casts and never-reassigned locals)"""
+    inits, assigns = B.local_inits(fn)
+
+    def is_y(e, depth=0):
+        e = peel(e)
+        if e is None or depth > 4:
+            return False
+        if e.get("id") == y.get("id"):
+            return True
+        d = ref_of(e)
+        return d is not None and d in inits and d not in assigns and not writes_to(fn.body, {d}) and is_y(inits[d], depth + 1)
+    return any(search_level(fn, z) == "leaf" and len(kids(z)) > 1 and is_y(kids(z)[1]) for _, z in own)
+
+
 def check_descent(ck, tree):
     for name, want in SEARCH_ROLE.items():
         for fn in tree.find(name):
-            calls = [z for z in walk(fn.body) if "callee" in z and z["callee"]["name"] in ("find_lower", "find_upper")]
+            own, helpers = descent_searches(tree, fn)
+            calls = own + [(h, z) for _, h, hc in helpers for z in hc]
             need = MIN_SEARCH_CALLS.get(name, 2)
             if len(calls) < need:
                 raise dtable.Undecidable("%s: %s() is expected to descend with at least %d in-node searches, found %d"
                                          % (fn.loc, name, need, len(calls)))
-            wrong = [z for z in calls if z["callee"]["name"] != want]
-            kinds = sorted({search_level(fn, z) for z in calls})
+            wrong = [(o, z) for o, z in calls if z["callee"]["name"] != want]
+            kinds = sorted({search_level(o, z) for o, z in calls})
             cst = "const" if fn.d.get("const") else "mutable"
             if wrong:
-                z = wrong[0]
-                if value_use(fn, z) is None:
-                    raise dtable.Undecidable("%s: use of the result of %s not understood" % (fn.nloc(z), dtable.describe(z)))
-                lvl = search_level(fn, z)
+                o, z = wrong[0]
+                if value_use(o, z) is None:
+                    raise dtable.Undecidable("%s: use of the result of %s not understood" % (o.nloc(z), dtable.describe(z)))
+                if o is not fn:
+                    # the other search sits in a helper: evidence only if the helper's result is the leaf this lookup searches
+                    # and the helper has no search of the wanted kind beside it (a helper shared by lower_bound and upper_bound
+                    # may choose the search by a flag)
+                    site = [y for y, h, _ in helpers if h is o]
+                    mixed = any(z2["callee"]["name"] == want for o2, z2 in calls if o2 is o)
+                    if mixed or not any(searched_node_is_result_of(fn, own, y) for y in site):
+                        raise dtable.Undecidable("%s: %s() calls %s(), which searches with %s; whether that is the descent of %s() "
+                                                 "is not understood" % (fn.nloc(site[0]), name, o.name, z["callee"]["name"], name))
+                lvl = search_level(o, z)
                 ck.violation("DESCENT-SEARCH", fn.qname, "%s:%s:%s" % (name, cst, lvl),
                              "%s() descends with %s at the %s level; every level must use %s, otherwise the position differs "
                              "from std::%s whenever equal keys or separators are met" % (name, z["callee"]["name"], lvl, want,
                                                                                        name if "bound" in name else "set"),
-                             fn.nloc(z))
+                             o.nloc(z))
                 continue
             if need == 2 and kinds != ["inner", "leaf"]:
                 raise dtable.Undecidable("%s: %s() searches only at %s level" % (fn.loc, name, kinds))
             # the child followed is the one the search returned
             problem = None
-            subs = child_subscripts(fn)
-            for z in calls:
-                if search_level(fn, z) != "inner":
+            for o, z in calls:
+                if search_level(o, z) != "inner":
                     continue
-                use = value_use(fn, z)
+                subs = child_subscripts(o)
+                use = value_use(o, z)
                 if use is None:
                     raise dtable.Undecidable("%s: use of the result of the inner search %s not understood"
-                                             % (fn.nloc(z), dtable.describe(z)))
+                                             % (o.nloc(z), dtable.describe(z)))
                 if use[0] in ("index", "shifted-index"):
                     if not any(q.get("id") == use[1].get("id") for q, _ in subs):
                         raise dtable.Undecidable("%s: the inner search indexes something that is not childid: %s"
-                                                 % (fn.nloc(z), dtable.describe(use[1])))
+                                                 % (o.nloc(z), dtable.describe(use[1])))
                     if use[0] == "shifted-index":
-                        problem = ("the child followed is %s, not childid[result of the inner search]" % dtable.describe(use[1]), use[1])
+                        problem = ("the child followed is %s, not childid[result of the inner search]" % dtable.describe(use[1]), use[1], o)
                         break
                     continue
                 var = use[1]
                 if any(ref_of(i) == var for _, i in subs):
                     continue
                 if subs and all(displaced_index(i, var) for _, i in subs):
-                    problem = ("the child followed is %s, not childid[result of the inner search]" % dtable.describe(subs[0][0]), subs[0][0])
+                    problem = ("the child followed is %s, not childid[result of the inner search]" % dtable.describe(subs[0][0]), subs[0][0], o)
                     break
-                raise dtable.Undecidable("%s: cannot tell which child %s() follows after %s" % (fn.nloc(z), name, dtable.describe(z)))
+                raise dtable.Undecidable("%s: cannot tell which child %s() follows after %s" % (o.nloc(z), name, dtable.describe(z)))
             if problem:
-                ck.violation("DESCENT-SEARCH", fn.qname, "%s:%s:child" % (name, cst), problem[0], fn.nloc(problem[1]))
+                ck.violation("DESCENT-SEARCH", fn.qname, "%s:%s:child" % (name, cst), problem[0], problem[2].nloc(problem[1]))
             else:
                 ck.ok("DESCENT-SEARCH", tree.where(fn, cst), "%d searches, all %s; child = childid[result]" % (len(calls), want))
     for fn in tree.find("equal_range"):
@@ -996,6 +1040,160 @@ def writes_to_node(y, var):
     return bool(w) and ref_of(w[1]) == var
 
 
+# ------------------------------------------------------------------ void helpers with out-parameters, read as inline code
+def _const_trip_unroll(loop):
+    """the statements of `for (T v = a; v < b; ++v) body` with literal a, b, at most 4 rounds, v only read in the body and no
+    break / continue / goto in it: the body once per round with v replaced by its value; None for any other loop"""
+    if loop["k"] != "ForStmt":
+        return None
+    init, cond, inc, body = match.loop_parts(loop)
+    if init is None or cond is None or inc is None or init["k"] != "DeclStmt":
+        return None
+    decls = [x for x in kids(init) if x is not None]
+    if len(decls) != 1 or decls[0]["k"] != "VarDecl" or not kids(decls[0]) or const_int(kids(decls[0])[0]) is None:
+        return None
+    if (decls[0].get("ty") or "").replace("const ", "") not in ("int", "unsigned int", "unsigned", "unsigned short", "short", "long",
+                                                               "unsigned long", "size_t", "std::size_t"):
+        return None
+    v, a = decls[0]["did"], const_int(kids(decls[0])[0])
+    b = match.binop(cond, ("<", "<=", "!=")) if cond["k"] == "BinaryOperator" else None
+    if not b or ref_of(b[1]) != v or const_int(b[2]) is None:
+        return None
+    hi = const_int(b[2]) + (1 if b[0] == "<=" else 0)
+    if advance_amount(inc, v) != 1 or inc["k"] not in ("UnaryOperator", "CompoundAssignOperator", "BinaryOperator"):
+        return None
+    if a < 0 or hi < a or hi - a > 4:
+        return None
+    if writes_to(body, {v}) or passed_by_reference(body, {v}):
+        return None
+    if any(y["k"] in ("BreakStmt", "ContinueStmt", "GotoStmt", "LabelStmt", "LambdaExpr") for y in walk(body)):
+        return None
+    ty = decls[0].get("ty")
+    return [dtable._subst(body, {v: _syn("IntegerLiteral", val=i, ty=ty, l=loop.get("l"))}) for i in range(a, hi)]
+
+
+def _unroll_all(s):
+    if s is None:
+        return None
+    if s["k"] == "ForStmt":
+        u = _const_trip_unroll(s)
+        if u is not None:
+            return _syn("CompoundStmt", [_unroll_all(x) for x in u], l=s.get("l"))
+        return s
+    if s["k"] in ("CompoundStmt", "IfStmt") and "init" not in s and "condvar" not in s:
+        out = dict(s)
+        ch = list(kids(s))
+        keep = 1 if s["k"] == "IfStmt" else 0
+        out["ch"] = ch[:keep] + [_unroll_all(c) for c in ch[keep:]]
+        return out
+    return s
+
+
+def _without_returns(stmts, budget):
+    """the statement list of a void function with every `return;` replaced by nesting what follows into the branches that go
+    on (same behaviour, no jump); None if a return sits inside a construct that is not a block or an if"""
+    out = []
+    for i, st in enumerate(stmts):
+        if st is None:
+            continue
+        if not any(y["k"] in ("ReturnStmt", "GotoStmt", "LabelStmt", "CXXThrowExpr") for y in walk(st)):
+            out.append(st)
+            continue
+        budget[0] -= 1
+        if budget[0] < 0:
+            return None
+        rest = list(stmts[i + 1:])
+        if st["k"] == "ReturnStmt":
+            return out if not kids(st) or kids(st)[0] is None else None
+        if st["k"] == "CompoundStmt":
+            r = _without_returns(list(kids(st)) + rest, budget)
+            return None if r is None else out + r
+        if st["k"] == "IfStmt" and "init" not in st and "condvar" not in st:
+            c, t, e = (list(kids(st)) + [None, None])[:3]
+            if any(y["k"] in ("ReturnStmt", "GotoStmt", "LabelStmt", "CXXThrowExpr") for y in walk(c)):
+                return None
+            tt = _without_returns(([t] if t is not None else []) + rest, budget)
+            ee = _without_returns(([e] if e is not None else []) + rest, budget)
+            if tt is None or ee is None:
+                return None
+            out.append(_syn("IfStmt", [c, _syn("CompoundStmt", tt, l=st.get("l")), _syn("CompoundStmt", ee, l=st.get("l"))], l=st.get("l")))
+            return out
+        return None
+    return out
+
+
+def inlined_void_helper(tree, fn, call):
+    """the body of a void member helper called as a statement `helper(a, b, out1, out2);` on this, as a block of the caller:
+    reference parameters stand for the variables passed, the other parameters for the (plain variable or literal) arguments;
+    None whenever the substitution could change the meaning (argument with effects or reading memory, a value parameter that
+    the helper assigns or that names a variable it also receives by reference, recursion, return inside a loop, ...)"""
+    if "callee" not in call or not call.get("member_call") or call["k"] != "CXXMemberCallExpr":
+        return None
+    a = kids(call)
+    if not a or a[0] is None or strip_casts(a[0])["k"] != "This":
+        return None
+    h = tree.by_did.get(call["callee"].get("did"))
+    if h is None or h.body is None or h.did == fn.did or h.record != B.BT or h.d.get("ret") != "void" or h.d.get("virtual"):
+        return None
+    actual = a[1:]
+    if len(actual) != len(h.params) or any(x is None or x["k"] == "DefaultArg" for x in actual):
+        return None
+    mapping, byref, byval = {}, set(), set()
+    for prm, arg in zip(h.params, actual):
+        ty = (prm.get("ty") or "").rstrip()
+        if ty.endswith("&&"):
+            return None
+        base = ty[:-1].rstrip() if ty.endswith("&") else ty
+        # T& with T not const-qualified at top level (`const node*&` is a mutable reference to a pointer)
+        mutable_ref = ty.endswith("&") and not (base.endswith("const") or ("*" not in base and base.startswith("const ")))
+        if mutable_ref:
+            if arg["k"] != "DeclRefExpr" or arg["ref"].get("kind") not in ("local", "param"):
+                return None
+            byref.add(arg["ref"]["id"])
+            mapping[prm["did"]] = arg
+        else:
+            x = strip_casts(arg)
+            if x is None or not (x["k"] == "DeclRefExpr" and x["ref"].get("kind") in ("local", "param") or
+                                 x["k"] in ("IntegerLiteral", "CXXBoolLiteralExpr", "NullPtr", "CXXNullPtrLiteralExpr", "GNUNullExpr")):
+                return None
+            if x["k"] == "DeclRefExpr":
+                byval.add(x["ref"]["id"])
+            # the parameter is a copy: the helper must not change it, nor the variable it is copied from
+            if writes_to(h.body, {prm["did"]}) or passed_by_reference(h.body, {prm["did"]}):
+                return None
+            mapping[prm["did"]] = arg
+    if byref & byval:
+        return None
+    # the helper calls nothing that could reach the caller's variables other than through its parameters: locals and
+    # parameters of the caller are not visible to it, so only the parameters matter
+    if any("callee" in y and y["callee"].get("did") in (h.did, fn.did) for y in walk(h.body)):
+        return None
+    if any(y["k"] == "LambdaExpr" for y in walk(h.body)):
+        return None
+    body = _unroll_all(h.body)
+    stmts = _without_returns(list(kids(body)) if body["k"] == "CompoundStmt" else [body], [12])
+    if stmts is None:
+        return None
+    return dtable._subst(_syn("CompoundStmt", stmts, l=call.get("l")), mapping)
+
+
+def with_helpers_inlined(tree, fn, s):
+    """statement s with every statement-level call of a void helper (see inlined_void_helper) replaced by the helper's body"""
+    if s is None:
+        return None
+    if s["k"] in ("CompoundStmt", "IfStmt") and "init" not in s and "condvar" not in s:
+        out = dict(s)
+        ch = list(kids(s))
+        keep = 1 if s["k"] == "IfStmt" else 0
+        out["ch"] = ch[:keep] + [with_helpers_inlined(tree, fn, c) for c in ch[keep:]]
+        return out
+    x = s
+    while x is not None and x["k"] in ("ExprWithCleanups", "ParenExpr") and kids(x):
+        x = kids(x)[0]
+    r = inlined_void_helper(tree, fn, x) if x is not None else None
+    return r if r is not None else s
+
+
 # ------------------------------------------------------------------ sibling bookkeeping of the descents
 class SiblingRoles(B.Roles):
     """like Roles, but a local that is assigned anywhere is never identified with the parameter it was initialised from"""
@@ -1145,6 +1343,8 @@ def check_siblings(ck, tree):
             if y.get("id") not in inside and any(writes_to_node(y, d) for d in argvars):
                 raise dtable.Undecidable("%s: an argument variable of the recursive call is written outside the statements that "
                                          "prepare the call" % fn.nloc(y))
+        # a void helper that fills in argument variables through reference parameters is read as if written in place
+        region = with_helpers_inlined(tree, fn, region)
         leaves = dtable.explore(region, atomize, fn)
         atoms = dtable.atoms_of(leaves)
         for a in ("first", "last", ("null", B.P_LEFT), ("null", B.P_RIGHT)):
